@@ -180,7 +180,7 @@ fn helper_starts(dir: &std::path::Path) -> usize {
             rd.flatten()
                 .filter(|e| {
                     let n = e.file_name().to_string_lossy().to_string();
-                    n.ends_with(".start.json") || n.starts_with("git-")
+                    n.ends_with(".start.json") || n.starts_with("git-") || n.starts_with("exe-")
                 })
                 .count()
         })
@@ -199,7 +199,21 @@ fn install_git_wrapper(env: &mut Env) {
     if std::fs::write(&p, script).is_ok() {
         use std::os::unix::fs::PermissionsExt;
         let _ = std::fs::set_permissions(&p, std::fs::Permissions::from_mode(0o755));
+        // the same for the tools an invocation might consult about a busy address or about
+        // processes (whether or not they are installed here: a missing one records and exits 127)
         let path = std::env::var("PATH").unwrap_or_else(|_| "/usr/bin:/bin".into());
+        for tool in ["lsof", "ss", "netstat", "fuser", "ps", "pgrep", "pidof", "lslocks", "flock", "nc", "hostname", "uname", "id", "whoami", "stat", "ls", "cat", "env"] {
+            let real = path.split(':').map(|d| std::path::Path::new(d).join(tool)).find(|p| p.exists());
+            let tail = match real {
+                Some(r) => format!("exec {} \"$@\"", r.display()),
+                None => "exit 127".to_string(),
+            };
+            let script = format!("#!/bin/sh\nif [ -n \"$MRV_TRACE\" ]; then echo \"$*\" > \"$MRV_TRACE/exe-{}-$$.log\" 2>/dev/null; fi\n{}\n", tool, tail);
+            let tp = bin.join(tool);
+            if std::fs::write(&tp, script).is_ok() {
+                let _ = std::fs::set_permissions(&tp, std::fs::Permissions::from_mode(0o755));
+            }
+        }
         env.extra_env.push(("PATH".into(), format!("{}:{}", bin.display(), path)));
     }
 }
